@@ -3,16 +3,20 @@ use crate::engine::Property;
 pub mod c01;
 pub mod c02;
 pub mod c03;
+pub mod c04;
+pub mod c05;
 pub mod c06;
 pub mod c07;
 pub mod c08;
+pub mod c09;
+pub mod c09b;
 pub mod c13;
 pub mod c15;
 pub mod c16;
 pub mod c17;
 
 pub fn all_ids() -> Vec<&'static str> {
-    vec!["C01", "C02", "C03", "C06", "C07", "C08", "C13", "C15", "C16", "C17"]
+    vec!["C01", "C02", "C03", "C04", "C05", "C06", "C07", "C08", "C09", "C13", "C15", "C16", "C17"]
 }
 
 pub fn build(id: &str) -> Option<Property> {
@@ -20,9 +24,12 @@ pub fn build(id: &str) -> Option<Property> {
         "C01" => Some(c01::property()),
         "C02" => Some(c02::property()),
         "C03" => Some(c03::property()),
+        "C04" => Some(c04::property()),
+        "C05" => Some(c05::property()),
         "C06" => Some(c06::property()),
         "C07" => Some(c07::property()),
         "C08" => Some(c08::property()),
+        "C09" => Some(c09::property()),
         "C13" => Some(c13::property()),
         "C15" => Some(c15::property()),
         "C16" => Some(c16::property()),
